@@ -297,3 +297,6 @@ func ResetOnces() int {
 	onceReg = nil
 	return n
 }
+
+// AtomicPoint is the scheduling point of the sync/atomic shim (hooks/verifatomic): always on, like the sync points.
+func AtomicPoint() { point("atomic") }
